@@ -28,6 +28,8 @@ RULE_TEXT = (
     "base package, sub-modules of components, imports biased to realise the drawn arrows. Oracle: the conformance "
     "formula of the property (models.diagram_conforms); on failure the parsed line set must equal the union of the "
     "reference reports of every violated per-component rule; both naming options must give the same verdict and lines. "
+    "A sixth of the random diagrams have a component inside another one; there the oracle is the documented lowering: the "
+    "verdict equals the conjunction of the per-component should(-only) / should-not rules built through the Rule API. "
     "Non-trivial: >= 1 arrow and >= 1 import between component modules. The .puml is rendered in one canonical style "
     "(C06 covers the syntactic variety)."
 )
@@ -171,7 +173,58 @@ def judge(tree, imports, comps_short, arrows_short, should_only, ev, paths, base
             "labels": [f"mode={mode}", "oracle=" + ("pass" if ok else "fail"), f"violating-subject-modules={min(n_viol_rules, 3)}"]}
 
 
+def check_nested(spec: dict) -> dict:
+    """Diagrams in which one component lies inside another (the documentation treats an arrow between them as an import
+    like any other). The conformance formula of the property speaks about unrelated components, so the oracle here is
+    the documented lowering: the DiagramRule's verdict must be the conjunction of one 'should (only) import <targets>' rule
+    per component with arrows and one 'should not import <all other components>' rule per component, each evaluated
+    through the public Rule API on the same architecture."""
+    from ..drive import build_rule
+
+    tree, imports = spec["tree"], [tuple(e) for e in spec["imports"]]
+    base = spec["base"]
+    comps = [f"{base}.{c}" for c in spec["components"]]
+    arrows = {(f"{base}.{a}", f"{base}.{b}") for a, b in spec["arrows"]}
+    ev = evaluable_for(spec)
+    verdicts, want_lines = [], set()
+
+    def one(r):
+        o = outcome(lambda: build_rule(r).assert_applies(ev))
+        verdicts.append(o[0])
+        if o[0] == "fail":
+            want_lines.update(o[1].split("\n"))
+
+    for a in comps:
+        targets = sorted(b for b in comps if (a, b) in arrows)
+        if targets:
+            one({"verb": "should_only" if spec["should_only"] else "should", "dir": "import", "exc": False, "anything": False,
+                 "subj": {"kind": "named", "names": [a]}, "obj": {"kind": "named", "names": targets, "as_str": False}})
+        non = sorted(b for b in comps if b != a and (a, b) not in arrows)
+        if non:
+            one({"verb": "should_not", "dir": "import", "exc": False, "anything": False,
+                 "subj": {"kind": "named", "names": [a]}, "obj": {"kind": "named", "names": non, "as_str": False}})
+    want = "error" if "error" in verdicts else ("pass" if all(x == "pass" for x in verdicts) else "fail")
+    path = write_puml(render(spec["components"], [tuple(a) for a in spec["arrows"]], False, base))
+    try:
+        got, got_msg = run_diagram(path, ev, False, spec["should_only"], base)
+    finally:
+        os.unlink(path)
+    viols = []
+    mode = "should_only" if spec["should_only"] else "should"
+    if got == want == "fail" and set(got_msg.split("\n")) != want_lines:
+        viols.append({"sig": f"C07/nested-components/aggregated-lines-differ/{mode}", "key": {"mode": mode},
+                      "detail": f"components={comps} arrows={sorted(arrows)}: DiagramRule lists {sorted(set(got_msg.split(chr(10))))}, the violated "
+                                f"per-component rules list {sorted(want_lines)}"})
+    if got != want:
+        viols.append({"sig": f"C07/nested-components/diagram-vs-generated-rules/{mode}/impl={got},rules={want}", "key": {"mode": mode},
+                      "detail": f"components={comps} arrows={sorted(arrows)} imports={sorted(imports)}: DiagramRule {got}, conjunction of the "
+                                f"documented per-component rules {want} ({verdicts})"})
+    return {"violations": viols, "nontrivial": bool(arrows) and bool(imports), "labels": ["nested-components", f"mode={mode}", f"rules={want}"]}
+
+
 def check_case(spec: dict) -> dict:
+    if spec.get("nested"):
+        return check_nested(spec)
     tree, imports = spec["tree"], [tuple(e) for e in spec["imports"]]
     comps, arrows = spec["components"], [tuple(a) for a in spec["arrows"]]
     ev = evaluable_for(spec)
@@ -262,6 +315,15 @@ def cases(draw):
             "should_only": draw(st.booleans()), "base": base}
     if draw(st.integers(0, 4)) == 0:
         spec.update(draw(RS.preimage(tree, sorted(imports))))  # the same architecture as the flattening of a deeper one
+    inner = [m for m in tree if any(M.is_strict_desc(m, f"{base}.{c}") for c in names)]
+    if inner and draw(st.integers(0, 5)) == 0:
+        # a further component that lies inside one of the others
+        extra = draw(st.sampled_from(inner))[len(base) + 1:]
+        spec["components"] = names + [extra]
+        pairs2 = [(a, b) for a in spec["components"] for b in spec["components"] if a != b]
+        spec["arrows"] = [list(a) for a in draw(st.lists(st.sampled_from(pairs2), max_size=6, unique=True))]
+        spec["nested"] = True
+        spec.pop("full_tree", None), spec.pop("full_imports", None), spec.pop("level_limit", None)
     return spec
 
 
